@@ -60,6 +60,15 @@ Definition k2_x0 : xctx := p_x fresh_ctx.
 Theorem C04_next_twice_refuted : exists c, mrun 400 (init xctx eff k2_chain k2_x0) = Panicked PIndex c.
 Proof. eexists. vm_compute. reflexivity. Qed.
 
+(* known finding K6 (not repaired): Router.Use has no limit. A chain of 128 handlers (127 middleware that all call Next and the
+   main handler) runs NO handler: int8(len(handlers)) is negative in Context.Next. The request is answered with an empty 200. *)
+Definition k6_mws : list hprog := map (fun i => [OEff (EEv i); ONext]) (seq 0 127).
+Theorem C04_long_chain_refuted : exists x,
+  handle_request {| globals := []; on_panic := None; on_error := None |} false
+    (TRoute k6_mws [OEff (EEv 999%nat)] [] [] []) (p_x (ctx_init [] fresh_ctx)) = Done x [] /\
+  trace x = [] /\ log (w x) = [WH 200].
+Proof. eexists. split; [vm_compute; reflexivity|]. split; vm_compute; reflexivity. Qed.
+
 (* ---------- end to end: registration program -> route table -> lookup -> dispatch (Sys.v) ---------- *)
 (* whatever route the lookup of the router built from a registration program selects, the chain that runs is: the global
    middleware (top-level Use, in order), the middleware of the route as registered (enclosing groups outermost first, then
@@ -119,6 +128,7 @@ Print Assumptions C04_no_cursor_crash.
 Print Assumptions C04_next_many_each_once.
 Print Assumptions C04_next_many_no_crash.
 Print Assumptions C04_next_twice_refuted.
+Print Assumptions C04_long_chain_refuted.
 Print Assumptions C04_chain_of_lookup.
 Print Assumptions C04_chain_of_not_found.
 Print Assumptions C04_chain_of_not_allowed.
